@@ -384,6 +384,9 @@ def _fn_of(decl):
     return decl
 
 
+_ARROWS = {}
+
+
 def resolve_local_call(mod, cname, call):
     """(function node, owner class name or None) when `call` is this.m(..) / C.m(..) / f(..) and the target is a
     method of class `cname` (or of the named class C) or a top-level function of the module; else None.  Interface
@@ -391,6 +394,20 @@ def resolve_local_call(mod, cname, call):
     c = unparen(call["callee"])
     if c.get("type") == "Identifier":
         d = mod.functions.get(c["value"])
+        if d is None:
+            # `const f = (x) => expr` / `const f = function (x) { .. }` at module level
+            v = mod.vars.get(c["value"])
+            init = unparen(v[1]) if v and v[1] is not None else None
+            if init is not None and init.get("type") in ("ArrowFunctionExpression", "FunctionExpression") and init.get("body") is not None:
+                d = _ARROWS.get(id(init))
+                if d is None:
+                    d = dict(init)
+                    if d["body"].get("type") != "BlockStatement":
+                        d["body"] = {"type": "BlockStatement", "span": d["body"].get("span"), "ctxt": 0,
+                                     "stmts": [{"type": "ReturnStatement", "span": d["body"].get("span"), "argument": d["body"]}]}
+                    # arrow parameters are patterns, function parameters wrap them in {pat: ..}
+                    d["params"] = [p_ if "pat" in p_ else {"type": "Parameter", "span": p_.get("span"), "decorators": [], "pat": p_} for p_ in d.get("params", [])]
+                    _ARROWS[id(init)] = d
         return (_fn_of(d), None) if d is not None and d.get("body") is not None else None
     if c.get("type") == "MemberExpression" and c["property"]["type"] in ("Identifier", "PrivateName"):
         o = unparen(c["object"])
